@@ -1,6 +1,7 @@
 import os, sys
 sys.path.insert(0, os.path.join(os.path.dirname(os.path.abspath(__file__)), "..", "common"))
 import cxx_specs as XS
+from imports import imported
 
 PROPERTY = "C10"
 LEVEL = "proof"
@@ -72,3 +73,9 @@ OBLIGATIONS = [
      "expect_classes": ["postcondition", "precondition", "loop_invariant_base", "loop_invariant_step"], "expect_min": 10, "timeout": 1800, "mem_gb": 16, "weight": 3}
     for c in range(3)
 ] + simd("ssse3", "__m128i") + simd("avx2", "__m256i")
+# the initial hash H0 and the first two blocks are Blake2b computations over 48 + |key| bytes: the framing contracts of suite C11
+OBLIGATIONS += [
+    imported("C11", "update_arith_contract_input_fits_buffer", "initial_hash_blake2b_update_buffers_input_that_fits"),
+    imported("C11", "update_arith_contract_one_block_completed", "initial_hash_blake2b_update_compresses_exactly_one_completed_block"),
+    imported("C11", "final_contract", "initial_hash_blake2b_final_pads_and_flags_the_last_block"),
+]
